@@ -251,6 +251,25 @@ func (rc *raftNode) replayWALForSyncLearner(snapshot *raftpb.Snapshot) error {
 	return nil
 }
 
+// entriesAfterSnapshot drops the entries that the snapshot replaced. When raft
+// restores from a snapshot sent by the leader it throws its whole log away, but
+// the WAL only gets the snapshot marker: the old entries with a larger index are
+// still read back on restart. A log never holds an entry whose term is lower than
+// the term of an earlier index, so an entry older than the snapshot term is such a
+// leftover (restarting with it would make this replica vote for candidates that
+// miss committed entries).
+func entriesAfterSnapshot(snapshot *raftpb.Snapshot, ents []raftpb.Entry) []raftpb.Entry {
+	if snapshot == nil {
+		return ents
+	}
+	for i, e := range ents {
+		if e.Term < snapshot.Metadata.Term {
+			return ents[:i]
+		}
+	}
+	return ents
+}
+
 // replayWAL replays WAL entries into the raft instance.
 func (rc *raftNode) replayWAL(snapshot *raftpb.Snapshot, forceStandalone bool) error {
 	w, meta, st, ents, err := rc.openWAL(snapshot, true)
@@ -258,6 +277,7 @@ func (rc *raftNode) replayWAL(snapshot *raftpb.Snapshot, forceStandalone bool) e
 		return err
 	}
 
+	ents = entriesAfterSnapshot(snapshot, ents)
 	rc.Infof("wal meta: %v, restart with: %v, ents: %v", string(meta), st.String(), len(ents))
 	var m common.MemberInfo
 	err = json.Unmarshal(meta, &m)
